@@ -495,6 +495,9 @@ def search(res, tier, boost=False):
     # three time slabs with one side refined 0 / 1 / 2 times in space: elements of different slabs whose parameter intervals
     # are strictly nested without a common end point ([0,1] and [1/4,1/2]) or overlap-free neighbours of a level gap of two
     combos.append((rng.choice(['Dirichlet', 'MildSingular']), rng.choice(['UnitSquare', 'LShape'] if tier != 'quick' else ['UnitSquare']), 0, 'nested'))
+    # a problem with non-zero initial data on a mesh with a thin slab that starts late (h_t = 2^-11 at t = 1/16, h_x = 1/8: aspect
+    # 32): the heat kernel of the initial data reaches sqrt(4 t) = 0.5 although the slab is thin
+    combos.append(('Singular', 'UnitSquare', 0, 'late-thin'))
     if tier == 'thorough' or boost:
         combos.append(('MildSingular', 'Circle', 1, ['t', 's', 't']))
     # the driver (example.py) runs all problems against ONE cache directory per value of the straight-panel switch
@@ -507,7 +510,13 @@ def search(res, tier, boost=False):
     for problem, domain, unif, local_ops in combos:
         gamma = make_curve(domain)
         with contextlib.redirect_stdout(io.StringIO()):
-            mesh = MeshParametrized(gamma) if local_ops != 'nested' else MeshParametrized(gamma, initial_time_mesh=[0., 0.5, 1., 1.5])
+            mesh = MeshParametrized(gamma) if local_ops not in ('nested', 'late-thin') else MeshParametrized(
+                gamma, initial_time_mesh=[0., 0.5, 1., 1.5] if local_ops == 'nested' else [0., 1 / 16, 1 / 16 + 2.0**-11])
+            if local_ops == 'late-thin':
+                mesh.uniform_refine_space()
+                mesh.uniform_refine_space()
+                for e in [e for e in mesh.leaf_elements if float(e.time_interval[0]) > 0]:
+                    mesh.refine_space(e)
             if local_ops == 'nested':
                 side = rng.randrange(len(gamma.pw_gamma))
                 lo = float(gamma.pw_start[side])
@@ -524,7 +533,7 @@ def search(res, tier, boost=False):
                         mesh.refine_space(e)
             for _ in range(unif):
                 mesh.uniform_refine()
-            for ax in ([] if local_ops == 'nested' else (local_ops or [])):
+            for ax in ([] if local_ops in ('nested', 'late-thin') else (local_ops or [])):
                 cand = [e for e in mesh.leaf_elements if float(e.h_x)**2 / float(e.h_t) <= (8 if ax == 't' else 64)]
                 e = rng.choice(cand or list(mesh.leaf_elements))
                 mesh.refine_axis(e, 0 if ax == 't' else 1)
@@ -533,7 +542,9 @@ def search(res, tier, boost=False):
         elems = list(mesh.leaf_elements)
         tlevels = sorted({float(t) for e in elems for t in e.time_interval})
         xlevels = sorted({float(x) for e in elems for x in e.space_interval})
-        for pw in ((False, True) if domain != 'Circle' else (False, )):
+        # (late-thin: panels of length 1/8 - the graded evaluation points come closer than 1e-5 to the panel ends, which the
+        # quadrature path's evaluate() excludes by assertion; the closed-form evaluation has no such precondition)
+        for pw in ((True, ) if local_ops == 'late-thin' else (False, True) if domain != 'Circle' else (False, )):
             with contextlib.redirect_stdout(io.StringIO()):
                 SL = SingleLayerOperator(mesh, pw_exact=pw, cache_dir=cache[pw])
                 mat = SL.bilform_matrix(elems, elems)
@@ -552,6 +563,9 @@ def search(res, tier, boost=False):
                 Phi = np.linalg.solve(mat, rhs)
                 residual = ErrorEstimator.residual(None, elems, Phi, SL, M0u0, g, SL_exact_eval=pw)
             sample_idx = set(range(len(elems))) if len(elems) <= 10 or tier == 'thorough' or local_ops == 'nested' else set(rng.sample(range(len(elems)), 5))
+            if local_ops == 'late-thin' and tier == 'quick':
+                late = [i for i, e in enumerate(elems) if float(e.time_interval[0]) > 0]
+                sample_idx = set(rng.sample(late, 4)) | set(rng.sample([i for i in range(len(elems)) if i not in late], 1))
             for i, e in enumerate(elems):
                 if i not in sample_idx:
                     continue      # quick tier: the element means of a sample of the elements of the larger meshes
